@@ -23,6 +23,15 @@ KNOWN_SIGNATURES = [
      "expect_line": "Q fhf 0,1,2 : - -",
      "what": "find_halfface([0,1,2]) and find_halfface_extensive([0,1,2]) return the invalid handle although the live halfface 0 "
              "has exactly this vertex cycle (it uses the second of two parallel edges 0-1)"},
+    # reorder_incident_halffaces can write a NON-permutation when cells are not closed (C01 finding, Coq:
+    # Kernel2/ReorderExact.v reorder_permutation_refuted): two cells accepted by add_cell without topology check hold
+    # three halffaces each at edge 0-1; after the second add_cell halfedge_halffaces(0) lists halfface 2 twice and has
+    # lost halfface 8.  Not a single fan, so the C09 oracle does not judge it; listed here so that the replay stays visible.
+    {"id": "nonmanifold-cells-reorder", "oracle": "C09",
+     "script": ["AddVs 7", "@AddFV 0 1 2", "@AddFV 0 1 3", "@AddFV 0 1 4", "@AddFV 0 1 5", "@AddFV 0 1 6", "@AddC 0 3 6 0", "@AddC 0 2 5 1"],
+     "expect_line": "HFS [6 2 0 2 4] [5 3 1 3 7] [0] [1] [0] [1] [2] [3] [2] [3] [4] [5] [4] [5] [6] [7] [6] [7] [8] [9] [8] [9]",
+     "what": "after add_cell of two non-closed cells the halfedge->halfface list of halfedge 0 is [6 2 0 2 4]: halfface 2 twice, "
+             "halfface 8 lost (brute force: [0 2 4 6 8])"},
 ]
 
 def _replay_scripts(ctx):
